@@ -58,6 +58,22 @@ def bad_block(t, cause, pos):
         else:
             raise ValueError(t)
         return specs.build(sp)
+    if cause in ("twin_long", "twin_noncp"):
+        # the stored payload variant (0 or 1, chosen by pos) with ONE label made unwritable, the last one: same item
+        # count, same sizes - a replacement that takes an "equal size" shortcut meets exactly this block
+        import copy
+
+        sp = copy.deepcopy(kdriver.variant(t, pos)[0])
+        key = {R.T_OPT: "name"}.get(t, "label")
+        for k in ("tracks", "items", "channels", "events"):
+            if k in sp and sp[k]:
+                it = sp[k][-1]
+                d = it[1] if isinstance(it, tuple) else it
+                d[key] = ("L" * (40 if t == R.T_OPT else 300)) if cause == "twin_long" else NONCP
+                break
+        else:
+            raise ValueError("no labelled item")
+        return specs.build(sp)
     if cause == "format":
         sp, _, _, _ = kdriver.variant(t, 0)
         b = specs.build(sp)
@@ -119,6 +135,10 @@ def fault_ops(cfg, model):
                 for cause in CAUSES_LABEL:
                     for pos in (0, 1, 2):
                         out.append(("bad", api, t, cause, pos))
+            if t in LABELLED and api != "add":
+                for v in (0, 1):
+                    for cause in ("twin_long", "twin_noncp"):
+                        out.append(("bad", api, t, cause, v))
             if t in BADFORMAT:
                 out.append(("bad", api, t, "format", 0))
             out.append(("bad", api, t, "format_raw", 0))           # a bare int where a format enum member belongs
